@@ -36,7 +36,14 @@ CLAUSE → THEOREM TABLE (review R1; property text in properties.jsonl, id C06; 
         stratum), `gamma_plus_eq_rate` / `gamma_plus_eq_rate_on` (TPR, FPR, EO; generic in the stratum), instances
         `tpr_gamma_plus`, `fpr_gamma_plus`, `eo_gamma_plus` (no control), `tpr_/fpr_/eo_gamma_plus_in_stratum`,
         `gamma_plus_eq_error_rate` (ERP); against the MetricFrame model of C03 (`Fairness.named`, frames):
-        C06X `selrate_dict`, `rate_dict`, `*_difference_le_of_constraint`.
+        C06X `selrate_dict`, `rate_dict`, `*_difference_le_of_constraint`, whose selector hypotheses `hS : ∀ r, …` are
+        discharged for the real event rules by `tpr_constraint_bounds_eopp(_in_stratum)`, `fpr_constraint_bounds`,
+        `eo_constraint_bounds_eodds` (EO inside a control stratum is NOT instantiated there: its `hS` quantifies over
+        rows with non-binary labels too, which needs `toString` of an `Int` to contain no comma; the `BaseMetrics`
+        version `eo_gamma_plus_in_stratum` covers that case for binary rows).
+  Vectors of the wrong length: `zipWith`/`dot` truncate on BOTH sides of every equation below (so the equations stay
+  true but lose their meaning); the driver rejects such lines (`none`), fairlearn raises — theorems that need the
+  length say `h.length = rows.length`.
   Quantifier: nothing is bounded — any number of rows, groups, strata; any rational ratio (the constructor admits
   (0,1]: `config_ratio_in_range`); `h` any rational vector of the right length unless a theorem says `Hard`/`Soft`.
 -/
@@ -756,6 +763,13 @@ theorem bound_of_config (d r : Option Rat) (s eps ratio : Rat) (h : mkConfig d r
 example : mkConfig none (some (4/5)) (1/8) = .ok (1/8, 4/5) ∧ mkConfig (some (1/4)) none 7 = .ok (1/4, 1) ∧
     mkConfig none none 7 = .ok (1/100, 1) ∧ mkConfig none (some 0) 0 = .error .ratioRange ∧
     mkConfig none (some (3/2)) 0 = .error .ratioRange := by decide +kernel
+
+/-- `ErrorRate(costs=…)` accepts the costs iff both are non-negative and not both zero (the driver op `mom.err.costs`
+    evaluates `costsOk`) -/
+theorem costs_ok_iff (fp fn : Rat) : costsOk fp fn = true ↔ 0 ≤ fp ∧ 0 ≤ fn ∧ 0 < fp + fn := by
+  simp [costsOk, and_assoc]
+
+example : costsOk 0 2 = true ∧ costsOk 0 0 = false ∧ costsOk (-1) 2 = false := by decide +kernel
 
 /-- `gamma_plus_eq_rate` with the selector hypothesis only on the rows PRESENT (so it applies to event rules that
     behave as documented on binary labels only, e.g. EqualizedOdds within a stratum) -/
